@@ -773,3 +773,28 @@ def r_vote_durable(ctx):
                 else:
                     ctx.ok(inst, f.loc(st), '')
     ctx.expect_min(1)
+
+
+@rule('R-commit-persisted-value', 'the commit index handed to the journal for persistence is the node\'s own commit index '
+                                  '(never the leader\'s, which may be ahead of what this node verified)')
+def r_commit_persisted_value(ctx):
+    P, R = ctx.P, ctx.R
+    n_sites = 0
+    for f in P.methods_of(R.S):
+        for c in P.calls_in(f):
+            if isinstance(c.func, ast.Attribute) and c.func.attr == 'setRaftCommitIndex' and P.self_attr(c.func.value, f.self_name) == R.log and c.args:
+                n_sites += 1
+                ex = U.explorer(ctx, f)
+                res = U.full_run(ctx, f)
+                n = U.node_containing(ex.cfg, c)
+                inst = '%s: `%s`' % (f.qualname, unparse(c))
+                g = ('eq', ex.tb.term(c.args[0]), ex.tb.term(U.parse_expr('self.%s' % R.commitIndex)))
+                ok, cex = U.must(ctx, res, n.id, g)
+                if ok:
+                    ctx.ok(inst, f.loc(c), 'argument is the own commit index')
+                else:
+                    ctx.violation('%s:persists-foreign-commit-index' % f.qualname, f.loc(c),
+                                  'the journal is told to persist `%s`, which is not this node\'s commit index: after a restart the node replays its journal beyond the prefix '
+                                  'it verified against the leader' % unparse(c.args[0]), instance=inst)
+    ctx.require(n_sites >= 1, 'nobody hands the commit index to the journal')
+    ctx.expect_min(1)
